@@ -638,7 +638,8 @@ class t2data(object):
         while more:
             line = padstring(infile.readline())
             if line.strip():
-                section = any([line.startswith(keyword) for keyword in t2data_sections])
+                section = any([line.startswith(keyword) for keyword in
+                               t2data_sections + ['ENDCY', 'ENDFI']])
                 if section: more = False
                 else:
                     more_incons = infile.parse_string(line, 'default_incons')
